@@ -1,7 +1,7 @@
 # Sizing and claim for C09 (see props/__init__.py)
 SPEC = {
-        "quick": {"rc_cases": 80000, "rc_procs": 8, "enum": True},
-        "thorough": {"rc_cases": 500000, "rc_procs": 8, "enum": True, "fuzz_secs": 90, "fuzz_workers": 6},
+        "quick": {"rc_cases": 30000, "rc_procs": 8, "enum": True},
+        "thorough": {"rc_cases": 250000, "rc_procs": 8, "enum": True, "fuzz_secs": 90, "fuzz_workers": 6},
         "claim": {
             "category": "exploration",
             "technique": "bounded-exhaustive short subjects + rapidcheck/libFuzzer generated (subject, pattern, max_splits, replacement, delimiters) cases against a left-to-right non-overlapping reference scan; allocation budget and CPU-time watchdog for termination; all overloads compared",
